@@ -239,6 +239,8 @@ def call_sync(rt: Runtime, fn: Any, *, call_id: str = "c0") -> dict:
     try:
         with warnings.catch_warnings(record=True) as wlist:
             warnings.simplefilter("always")
+            if getattr(rt, "runtime_warnings_are_errors", False):
+                warnings.filterwarnings("error", category=RuntimeWarning)  # the interpreter configuration numeric code / strict test suites use
             try:
                 out = outcome_of_result(fn())
             except Exception as e:  # noqa: BLE001 - outcome of the system under test
@@ -299,6 +301,8 @@ def call_async(
     hook = rt.release_one if hold else None
     with warnings.catch_warnings(record=True) as wlist:
         warnings.simplefilter("always")
+        if getattr(rt, "runtime_warnings_are_errors", False):
+            warnings.filterwarnings("error", category=RuntimeWarning)
         sim = run_sim(main, shuffle_seed=shuffle_seed, step_cap=step_cap, on_quiescent=hook, on_drain=hook)
     rt.loop = None
     rt.vclock = max(rt.vclock, sim.get("t_end", 0.0))
